@@ -5,6 +5,7 @@ package main
 import (
 	"fmt"
 	"strings"
+	"time"
 
 	"github.com/llir/llvm/ir"
 	"github.com/llir/llvm/ir/constant"
@@ -295,6 +296,8 @@ func c14Class(h []c14Op) string {
 	return ""
 }
 
+var c14Hangs int
+
 func runC14(c *config) {
 	o := c.out
 	r := newRng(c.seed, "c14")
@@ -334,6 +337,22 @@ func runC14(c *config) {
 				return nil
 			})
 			if oc != ocOk {
+				// a caller may recover from the panic of a print and go on: the function must stay usable (the
+				// next print panics again or succeeds; it does not hang)
+				if c14Hangs >= 3 {
+					return "Panic", s // reported already: no more three-second waits
+				}
+				done := make(chan struct{})
+				go func() {
+					defer close(done)
+					guard(func() error { _ = s.f.LLString(); return nil })
+				}()
+				select {
+				case <-done:
+				case <-time.After(3 * time.Second):
+					c14Hangs++
+					return "Hang", s
+				}
 				return "Panic", s
 			}
 			return text, s
@@ -353,6 +372,10 @@ func runC14(c *config) {
 		o.Case("history", []string{init, c14Enc(h, np)}, []string{res})
 		if i < 2 {
 			o.Sample(map[string]interface{}{"initial": init, "history": c14Enc(h, np), "final_with_observers": with})
+		}
+		if with == "Hang" || without == "Hang" {
+			o.Fail("observers_noop", "", "after a print that panicked (and was recovered) the next print of the function never returns", map[string]interface{}{"initial": init, "history": c14Enc(h, np)})
+			continue
 		}
 		if with != without {
 			cls := ""
